@@ -9,7 +9,43 @@ def gen(ctx):
     SC.gen_all(ctx)
 
 
+def fanout_script(rng):
+    """one sender, several receivers tuned to it (the situation in which 'one copy each' matters), random mute / drop / versions per receiver"""
+    defs = W.rand_trx_defs(rng)
+    while len(defs) < 1:
+        defs = W.rand_trx_defs(rng)
+    n = 2 + len(defs)
+    snd = rng.below(n)
+    fa, fb = W.FREQS[0], W.FREQS[2]
+    ops, vers = [], [0] * n
+    for i in range(n):
+        if i == snd:
+            ops += [("ctrl", i, W.cmd("CMD RXTUNE %d" % fb)), ("ctrl", i, W.cmd("CMD TXTUNE %d" % fa))]
+        else:
+            ops += [("ctrl", i, W.cmd("CMD RXTUNE %d" % (fa if rng.chance(5, 6) else fb))), ("ctrl", i, W.cmd("CMD TXTUNE %d" % fb))]
+        vers[i] = rng.below(2)
+        ops.append(("ctrl", i, W.cmd("CMD SETFORMAT %d" % vers[i])))
+        ops.append(("ctrl", i, W.cmd("CMD POWERON")))
+    fn = rng.below(W.H - 100)
+    for _ in range(rng.range(6, 25)):
+        i = rng.below(n)
+        w = rng.below(6)
+        if w == 0:
+            ops.append(("ctrl", i, W.cmd("CMD RFMUTE %d" % rng.choice([0, 1, 1]))))
+        elif w == 1:
+            ops.append(("ctrl", i, W.cmd("CMD FAKE_DROP %d %d" % (rng.choice([0, 1, 2, 3]), rng.choice([1, 1, 2])))))
+        else:
+            ops.append(("data", snd, W.tx_datagram(vers[snd], fn, rng.below(8), rng.choice([0, 5, 20]), W.rand_burst(rng, 148))))
+            ops.append(("state",))
+            ops.append(("tick", fn))
+            fn += 1
+    ops.append(("state",))
+    return defs, ops
+
+
 def make_script(rng):
+    if rng.chance(2, 5):
+        return fanout_script(rng)
     defs = W.rand_trx_defs(rng)
     n = 2 + len(defs)
     ops = W.setup_ops(rng, n)
@@ -19,7 +55,7 @@ def make_script(rng):
         w = rng.below(10)
         if w < 2:
             i = rng.below(n)
-            c = rng.below(6)
+            c = rng.below(8)
             if c == 0:
                 ops.append(("ctrl", i, W.cmd("CMD RXTUNE %d" % rng.choice(W.FREQS))))
             elif c == 1:
@@ -32,9 +68,13 @@ def make_script(rng):
                 ops.append(("ctrl", i, W.cmd("CMD POWEROFF")))
             elif c == 4:
                 ops.append(("ctrl", i, W.cmd("CMD POWERON")))
-            else:
+            elif c == 5:
                 vers[i] = rng.below(2)
                 ops.append(("ctrl", i, W.cmd("CMD SETFORMAT %d" % vers[i])))
+            elif c == 6:
+                ops.append(("ctrl", i, W.cmd("CMD RFMUTE %d" % rng.choice([0, 1, 1]))))
+            else:
+                ops.append(("ctrl", i, W.cmd("CMD FAKE_DROP %d %d" % (rng.choice([0, 1, 2, 5]), rng.choice([1, 1, 2, 3])))))
         else:
             for _ in range(1 + rng.below(3)):
                 i = rng.below(n)
@@ -65,6 +105,7 @@ def oracle(ctx, script, real):
             fn = e["op"][1]
             st = last[0]
             expect = []
+            drop = [t["sim"][11] for t in st]
             for i, t in enumerate(st):
                 if not t["run"]:
                     continue
@@ -74,9 +115,19 @@ def oracle(ctx, script, real):
                     txf = freq(t, fn, False)
                     for j, u in enumerate(st):
                         if j != i and u["run"] and freq(u, fn, True) == txf:
-                            expect.append((i, j))
+                            # every tuned running peer gets its own copy; what it sees depends only on ITS mute / drop state and the sender's mute
+                            if u["sim"][0] or t["sim"][0]:
+                                sup = True
+                            elif drop[j] != 0 and fn % u["sim"][12] == 0:
+                                sup = True
+                                drop[j] -= 1
+                            else:
+                                sup = False
+                            if sup and u["ver"] == 0:
+                                continue
+                            expect.append((i, j, "nope" if sup else "burst"))
                             ctx.nontrivial(("route", len(st), t["fh"] is not None, u["fh"] is not None, txf is None, bool(cfg[i]["children"]), cfg[j]["idx"] > 0))
-            got = [(src, j) for src, j, d, remote in e["log"]]
+            got = [(src, j, "nope" if (d[0] >> 4) >= 1 and (d[8] & 0x80) else "burst") for src, j, d, remote in e["log"]]
             if got != expect:
                 ctx.oracle_fail("bursts were delivered to other transceivers than the running peers tuned to the sender's frequency",
                                 dict(tick=fn, state=[dict(run=t["run"], rx=t["rx"], tx=t["tx"], fh=t["fh"], q=t["q"]) for t in st],
@@ -105,5 +156,5 @@ def run(ctx):
     ctx.sample(dict(trx_defs=scripts[0][0], ops=[SC.describe(o) for o in scripts[0][1][:12]]))
     ctx.count("operations", sum(len(s[1]) for s in scripts))
     ctx.count("transceivers", sum(2 + len(s[0]) for s in scripts))
-    ctx.extra["rule"] = ("sessions of 2..6 transceivers (BTS, MS, extra parents, children) with random RXTUNE/TXTUNE/SETFH/POWERON/POWEROFF/SETFORMAT and bursts from any of them, "
+    ctx.extra["rule"] = ("sessions of 2..6 transceivers (BTS, MS, extra parents, children) with random RXTUNE/TXTUNE/SETFH/POWERON/POWEROFF/SETFORMAT/RFMUTE/FAKE_DROP and bursts from any of them, "
                          "ticks incl. the hyperframe wrap; distinct_nontrivial = distinct (world size, sender hopping, recipient hopping, untuned None==None match, parent/child) per delivery")
